@@ -474,13 +474,13 @@ def c03(tier):
         na, nb = measure_steps(pname)
         na, nb = na + 1, nb + 1
         # (first, a, b): first runs a steps, other b steps, first finishes, other finishes
-        dims = (na if th else min(na, 14), nb if th else min(nb, 14))
+        dims = (na if th else min(na, 26), nb if th else min(nb, 26))
         total = 2 * dims[0] * dims[1]
         enum_total += total
         per = max(1, total // (NCPU * 2))
         for lo in range(0, total, per):
             jobs.append((seed(), lo, min(total, lo + per), wroot, ("enum", pname, dims)))
-        r.extra.setdefault("enumerated_programs", {})[pname] = {"server_steps": [na - 1, nb - 1], "schedules": total, "complete": th or (na <= 14 and nb <= 14)}
+        r.extra.setdefault("enumerated_programs", {})[pname] = {"server_steps": [na - 1, nb - 1], "schedules": total, "complete": th or (na <= 26 and nb <= 26)}
     npct = 12000 if th else 700
     nrw = 8000 if th else 350
     per = max(1, npct // (NCPU * 2))
